@@ -214,6 +214,12 @@ void runC17PGN(const Scenario& sc, vf::Result& res) {
         cb.data = bad;
         cb.r = &r;
         cb.maxChunk = 50;
+        // a parser that does not terminate has no sim point to be caught at: wall-clock watchdog for this stream
+        {
+            std::string shown = bad.substr(0, 160);
+            for (auto& ch : shown) if ((unsigned char)ch < 0x20 || (unsigned char)ch >= 0x7f) ch = '.';
+            vf::armHangWatchdog(5, "C17", "pgn-parser-hang", "PgnReader did not return within 5 s on a damaged stream (" + std::to_string(bad.size()) + " bytes) starting with: " + shown);
+        }
         std::istream is(&cb);
         PgnReader reader(is);
         for (int g = 0; g < nGames + 3; g++) {
@@ -227,6 +233,7 @@ void runC17PGN(const Scenario& sc, vf::Result& res) {
                 break;
             }
         }
+        vf::disarmHangWatchdog();
     }
     res.info["casehash"] = vf::hex64(vf::fnv1a(pgn));
     res.counters["nontrivial"] = 1;
